@@ -165,6 +165,51 @@ def dedup_in_flight_sharing(req):
     elif t3 is not t2:
         return fail("completion of an older task removed the newer in-flight task registered under the same key "
                     "(a further call created a third task while the second was not complete)")
+    # a body that synchronously re-requests its own key while running (escape hatch) must not displace itself
+    _reset()
+    body_runs = []
+
+    @deduplicate()
+    @A()
+    def rec(x, depth=0):
+        body_runs.append(depth)
+        if depth == 0:
+            inner_t = rec.asynq(x)              # same key while this task is running: a fresh, unregistered task
+            body_runs.append(("inner is outer", inner_t is outer_holder.get("t")))
+        r = yield batching.DebugBatchItem("k", x)
+        return r
+    outer_holder = {}
+
+    @A()
+    def filler():
+        yield batching.DebugBatchItem("first", 0)
+        yield batching.DebugBatchItem("first", 1)
+        return 0
+
+    @A()
+    def recursion_case():
+        t1 = rec.asynq(9)
+        outer_holder["t"] = t1
+
+        @A()
+        def starts_t1():
+            r = yield t1
+            return r
+
+        @A()
+        def later_caller():
+            # two rounds in which batch kind 'first' is the largest: t1 (1 item of kind 'k') stays blocked meanwhile
+            yield batching.DebugBatchItem("first", 0)
+            yield batching.DebugBatchItem("first", 1)
+            pending = not t1.is_computed()
+            t2 = rec.asynq(9)
+            return (pending, t2 is t1)
+        res = yield [starts_t1.asynq(), later_caller.asynq(), filler.asynq(), filler.asynq(), filler.asynq()]
+        return res[1]
+    pending, shared = recursion_case()
+    if pending and not shared:
+        return fail("after a synchronous self-request inside the running body, a later caller no longer gets the in-flight outer task",
+                    body_runs=repr(body_runs))
     # methods: same instance shares, different instances do not
     _reset()
     del runs[:]
@@ -263,6 +308,8 @@ def caches_reference_model(req):
             if a == 9:
                 raise KeyError(a)
             r = yield batching.DebugBatchItem("k", (a, b, c, len(calls)))
+            if a == 3:
+                return None            # a body may legitimately return None (or another falsy value): still cached
             return r
         ref = []     # list of (key, value), most recently used last
         spell = [lambda a, b, c: f(a, b, c=c), lambda a, b, c: f(a, b=b, c=c), lambda a, b, c: f(a=a, b=b, c=c),
@@ -290,7 +337,7 @@ def caches_reference_model(req):
                     if got[0] != "exc":
                         return fail("alru_cache: raising body must propagate")
                 else:
-                    if got[0] != "val" or got[1][:3] != key:
+                    if got[0] != "val" or (a != 3 and got[1][:3] != key) or (a == 3 and got[1] is not None):
                         return fail("alru_cache: a call received another call's value", key=key, got=repr(got), maxsize=maxsize)
                     ref.append((key, got[1]))
                     if len(ref) > maxsize:
@@ -599,11 +646,12 @@ def generators_deliver_values(req):
         return fail("repr of an async generator raised", exc=repr(e))
     t1 = g.next()
     if not t1.is_computed():
-        try:
-            g.next()
-            return fail("advancing before the previous task is computed must raise RuntimeError")
-        except RuntimeError:
-            pass
+        for attempt in (1, 2, 3):
+            try:
+                g.next()
+                return fail("advancing before the previous task is computed must raise RuntimeError (every time)", attempt=attempt)
+            except RuntimeError:
+                pass
     if t1.value() != 10:
         return fail("first value", got=repr(t1.value()))
     rest = list_of_generator(g)
